@@ -88,7 +88,8 @@ theorem buildHeader_eq (length : Int) (extra : Bytes) : Codec.buildHeader length
         · rw [if_neg h, if_neg h]
           by_cases h2 : length.toNat ≥ 65536
           · rw [if_pos h2, if_neg (by omega)]; rfl
-          · rw [if_neg h2, if_pos (by omega)]; rfl)
+          · rw [if_neg h2, if_pos (by omega)]; rfl
+          done)
   | rfl
 
 theorem toBytesBEI_ok (k : Nat) (n : Int) (h0 : 0 ≤ n) (h : n.toNat < 256 ^ k) :
@@ -139,7 +140,8 @@ theorem encodeHandshakeRequest_eq (packetId : Int) (data : Bytes) :
           · rw [if_pos h2, toBytesBEI_bad _ _ (by omega)]; rfl
           · rw [if_neg h2, toBytesBEI_ok _ _ (by omega) (by omega), ok_bind, if_neg h]
             simp only [List.append_assoc]
-            rfl)
+            rfl
+            done)
   | rfl
 
 /-! ### _encode_encrypted_request -/
@@ -202,7 +204,8 @@ theorem encodeEncryptedRequest_eq (key : Option Bytes) (packetId : Int) (data ra
          · rw [if_pos h2, toBytesBEI_bad _ _ (by omega)]; rfl
          · rw [if_neg h2, toBytesBEI_ok _ _ (by omega) (by omega), ok_bind]
            simp only [List.append_assoc]
-           rfl)
+           rfl
+           done)
   | rfl
 
 theorem slice_dropI {α} (l : List α) (n : Int) (h : 0 ≤ n) : Py.slice l (some n) none = l.drop n.toNat := by
@@ -259,12 +262,14 @@ theorem decodeHandshakeResponse_eq (packet : Bytes) :
   first
   | (
      unfold Codec.decodeHandshakeResponse decodeHandshakeResponse
-     rw [sl_drop6, sl_drop2]; rfl)
+     rw [sl_drop6, sl_drop2]; rfl
+     done)
   | (
      -- any way of writing "everything after byte 8" with non-negative literal bounds
      unfold Codec.decodeHandshakeResponse decodeHandshakeResponse
      simp (disch := decide) only [slice_dropI, List.drop_drop, Int.reduceToNat, Nat.reduceAdd]
-     rfl)
+     rfl
+     done)
   | rfl
 
 /-! ### _decode_encrypted_response -/
@@ -335,7 +340,8 @@ theorem decodeEncryptedResponse_eq (key : Option Bytes) (packet : Bytes) :
            | none => rfl
            | some b5 =>
              simp only [ok_bind]
-             rw [shr4_div, strip_eq _ _ (decryptCbc_len _ _ _ hd) (b5_div_lt b5)]; rfl)
+             rw [shr4_div, strip_eq _ _ (decryptCbc_len _ _ _ hd) (b5_div_lt b5)]; rfl
+             done)
   | rfl
 
 /-! ### _process_packet -/
@@ -400,7 +406,8 @@ theorem processPacket_eq (key : Option Bytes) (packet : Bytes) :
                · subst t1
                  simp
                  try rfl
-               · by_cases t15 : t = 15 <;> simp [c3, c1, c15, c3', c1', c15', t3, t1, t15])
+               · by_cases t15 : t = 15 <;> simp [c3, c1, c15, c3', c1', c15', t3, t1, t15]
+               done)
   | rfl
 
 /-! ### _get_local_key -/
@@ -451,7 +458,8 @@ theorem getLocalKey_eq (key data : Bytes) : Codec.getLocalKey key data = getLoca
            · simp only [hk, if_true, ne_eq, not_false_eq_true]
              try rfl
            · simp only [hk, if_false, ne_eq]
-             try rfl)
+             try rfl
+             done)
   | rfl
 
 /-! ### _Packet.encode -/
@@ -474,7 +482,8 @@ theorem packetEncode_eq (deviceId : Int) (ts command : Bytes) :
          · rw [if_neg hd2, toBytesLEI_ok _ _ (by omega) (by omega), ok_bind]
            unfold v2Header
            simp only [List.append_assoc]
-           rfl)
+           rfl
+           done)
   | rfl
 
 /-! ### _Packet.decode -/
@@ -511,7 +520,8 @@ theorem packetDecode_eq (data : Bytes) : Codec.packetDecode data = packetDecode 
            · rw [if_pos hs, if_pos (by ne_pos hs)]
            · rw [if_neg hs, if_neg (by ne_neg hs), mapErr_decryptAes]
              simp only []
-             cases decryptAes (List.drop 40 (List.take ((List.take (Py.fromLE ((data.drop 4).take 2)) data).length - 16) (List.take (Py.fromLE ((data.drop 4).take 2)) data))) <;> rfl)
+             cases decryptAes (List.drop 40 (List.take ((List.take (Py.fromLE ((data.drop 4).take 2)) data).length - 16) (List.take (Py.fromLE ((data.drop 4).take 2)) data))) <;> rfl
+             done)
   | rfl
 
 
@@ -539,7 +549,8 @@ theorem writeV3_eq (key : Option Bytes) (pid : Int) (data : Bytes) (ptype : Int)
            rw [if_neg (by decide), if_pos rfl]
            cases encodeHandshakeRequestI pid data <;> rfl
          · have h0' : (0 : Int) ≠ ptype := fun e => h0 e.symm
-           rw [if_pos (by ne_pos h0'), if_neg h0])
+           rw [if_pos (by ne_pos h0'), if_neg h0]
+           done)
   | rfl
 
 
@@ -607,7 +618,8 @@ theorem reasmStep_eq (buffer : Bytes) : Codec.reasmStep buffer = .ok (Model.reas
            · rw [if_pos (by simpa using (by omega : (((buffer.drop start).length : Nat) : Int) < ((sizeField (buffer.drop start) : Nat) : Int) + 8)), if_pos ht]; rfl
            · rw [if_neg (by simpa using (by omega : ¬ (((buffer.drop start).length : Nat) : Int) < ((sizeField (buffer.drop start) : Nat) : Int) + 8)), if_neg ht]
              have e : ((sizeField (buffer.drop start) : Nat) : Int) + 8 = ((sizeField (buffer.drop start) + 8 : Nat) : Int) := by omega
-             rw [e, slice_take, slice_drop]; rfl)
+             rw [e, slice_take, slice_drop]; rfl
+             done)
   | rfl
 
 
@@ -715,7 +727,8 @@ theorem constructDispatch_eq (frame : Bytes) : Codec.constructDispatch frame = M
                              have n5'' : ¬ ((5 : Int) = (x13.toNat : Int) % 16) := by omega
                              simp [validateUnlessProps, RespClass.tag, hb, g4, g5, n4', n5', n4'', n5'']
                      · have n193 : ¬ ((193 : Int) = (x10.toNat : Int)) := fun e => hC1 ((u8c' x10 193 (by decide) 193 rfl).mp e)
-                       simp [validateUnlessProps, RespClass.tag, hC0, hB5, hB0, hB1, hC1, n192, n181, n176, n177, n193])
+                       simp [validateUnlessProps, RespClass.tag, hC0, hB5, hB0, hB1, hC1, n192, n181, n176, n177, n193]
+                       done)
   | rfl
 
 
@@ -729,7 +742,8 @@ theorem constructOuter_eq (frame : Bytes) :
   | (
        unfold Codec.constructOuter
        rw [constructDispatch_eq]
-       first | done | (cases Py.mapErr "IndexError" Err.invalidResponse (Model.constructDispatch frame) <;> rfl))
+       first | done | (cases Py.mapErr "IndexError" Err.invalidResponse (Model.constructDispatch frame) <;> rfl)
+       done)
   | rfl
 
 theorem frameValidate_errs {f : Bytes} {e : Err} (h : frameValidate f = .error e) : e = .invalidFrame ∨ e = indexError := by
@@ -825,7 +839,8 @@ theorem securityUdpid_eq (id : Bytes) : Codec.securityUdpid id = .ok (Model.udpi
          simp only [List.length_drop, List.length_take, hl]; decide
        rw [if_neg (by simp only [ne_eq, Decidable.not_not]; exact e)]
        rw [py_xorBytes_comm _ _ e]
-       first | done | rfl)
+       first | done | rfl
+       done)
   | rfl
 
 /-! ### Discover._get_device_version -/
@@ -848,7 +863,8 @@ theorem getDeviceVersion_eq (isXml : Bool) (data : Bytes) :
            by_cases h3 : List.take 2 data = [0x83, 0x70]
            · have : ¬ (List.take 2 data ≠ [0x83, 0x70]) := fun h => h h3
              rw [if_pos h3, if_neg (by ne_neg this)]; rfl
-           · rw [if_neg h3, if_pos (by ne_pos h3)]; rfl)
+           · rw [if_neg h3, if_pos (by ne_pos h3)]; rfl
+           done)
   | rfl
 
 end Msmart.CodecEq
